@@ -219,11 +219,22 @@ impl<W: 'static, R: 'static, T: 'static> XGenerator<W, R, T> {
                 })
             }),
             Self::Slice(gen, start, end) => either_g({
-                let inner: BIter<_, _, _> = Box::new(to_native!(gen, Self)._iter(ns, rt));
+                let mut inner: BIter<_, _, _> = Box::new(to_native!(gen, Self)._iter(ns, rt));
+                // `Iterator::skip` would discard a violation raised while producing a skipped element
+                let mut to_skip = *start;
+                let skipped = iter::from_fn(move || {
+                    while to_skip > 0 {
+                        to_skip -= 1;
+                        if let Err(violation) = inner.next()? {
+                            return Some(Err(violation));
+                        }
+                    }
+                    inner.next()
+                });
                 if let Some(end) = end {
-                    Either::Left(inner.skip(*start).take(*end))
+                    Either::Left(skipped.take(*end))
                 } else {
-                    Either::Right(inner.skip(*start))
+                    Either::Right(skipped)
                 }
             }),
             Self::Filter(gen, func) => either_h({
